@@ -293,6 +293,8 @@ def scoping_rules(chk, P, only=None, exclude=()):
 
 def run(chk, ctx):
     P = Prog(ctx["facts"])
+    from .iter_rules import plumbing_rule
+    plumbing_rule(chk, P, {"ParsedTestCase": ("signals", "signal_spans", "virtual_signals", "expected_inputs", "read_outputs"), "TestCase": ("signals", "input_indices", "expected_indices", "read_outputs")})   # what the parser / the binding produced is what runs
     L = panrules.Lemmas(P, chk)
     chk.explanation = ("C11 decided through its decomposition: ORD (all five load-time checks run in order on every path to the TestCase, each error propagated, duplicates checked before the virtual signals are appended), "
                        "TAB/GUARD (each check's condition: duplicate names, unknown columns, C columns must be input-capable, reads must be output-capable; is_input/is_output tables), "
